@@ -135,6 +135,26 @@ def is_unitary(t):
     return all(is_unitary(s) for s in t["as"] if s is not None)
 
 
+def norm_bound(t):
+    """upper bound of the operator norm of the denotation (keeps ring coefficients far from TLC's 32-bit integers)."""
+    k = t["t"]
+    if k in ("gate", "root", "exp"):
+        return 1.0
+    if k in ("adj", "ctrl"):
+        return max(1.0, norm_bound(t["a"]))
+    if k == "pow":
+        return max(1.0, norm_bound(t["a"])) ** abs(t["z"])
+    if k == "sprod":
+        return abs(SCALARS[t["c"]]) * norm_bound(t["a"])
+    bs = [norm_bound(s) for s in t["as"] if s is not None]
+    if k == "sum":
+        return sum(bs)
+    out = 1.0
+    for b in bs:
+        out *= max(1.0, b)
+    return out * (max(1.0, bs[0]) if k == "cob" and t["as"][2] is None else 1.0)
+
+
 def depth(t):
     k = t["t"]
     if k == "gate":
@@ -321,7 +341,16 @@ def root_leaf(rng, labels, M):
     return G(rng.choice(["S", "T", "SX"]), rng.sample(labels, 1))
 
 
-def rand_term(rng, d, labels, angles, M, unitary=False, cob=True):
+def rand_term(rng, d, labels, angles, M, unitary=False, cob=True, maxnorm=128.0):
+    """random term of depth <= d over the wire labels with operator norm <= maxnorm."""
+    for _ in range(50):
+        t = _rand_term(rng, d, labels, angles, M, unitary, cob)
+        if norm_bound(t) <= maxnorm:
+            return t
+    return leaf(rng, labels, angles)
+
+
+def _rand_term(rng, d, labels, angles, M, unitary=False, cob=True):
     """random term of depth <= d over the wire labels (cob=False: no change_op_basis below, used under sum / s_prod, where
     PennyLane documents no matrix for ChangeOpBasis operands)."""
     if d == 0 or rng.random() < 0.12:
@@ -329,7 +358,7 @@ def rand_term(rng, d, labels, angles, M, unitary=False, cob=True):
     kinds_ = ["adj", "pow", "ctrl", "prod", "sprod", "exp", "root"] + ([] if unitary else ["sum", "sum"]) + (["cob"] if cob else [])
     k = rng.choice(kinds_)
     below = cob and k not in ("sum", "sprod")
-    sub = lambda u=False, lab=labels: rand_term(rng, d - 1, lab, angles, M, unitary=u or unitary, cob=below)
+    sub = lambda u=False, lab=labels: _rand_term(rng, d - 1, lab, angles, M, unitary=u or unitary, cob=below)
     if k == "adj":
         return {"t": "adj", "a": sub()}
     if k == "pow":
